@@ -136,7 +136,7 @@ def run_check(pid, tier, seed, replay=None):
     t0 = time.time()
     mod = importlib.import_module('props.' + pid.lower())
     findings = core.load_findings()
-    my_findings = [f for f in findings.get('findings', []) if f['property'] == pid]
+    my_findings = [f for f in findings.get('findings', []) if f['property'] == pid or pid in f.get('also', [])]
     violations = []
     known_seen = collections.OrderedDict()
     lines = []
